@@ -74,7 +74,7 @@ var poolSpecs = []poolSpec{
 	{"%{1: 2, 3: 4}", "map", ""}, {"%{3: 4, 1: 2}", "map", ""}, {"%{{a: 1}: 1}", "map", ""}, {"%{nil: nil}", "map", ""},
 	// ranges
 	{"(1:3)", "range", ""}, {"(nil:nil:-1)", "range", ""}, {"('a:'d)", "range", ""}, {"(3:1:0)", "range", ""}, {"(1:3:1)", "range", ""},
-	{"(nil:nil:nil)", "range", "zero"}, {"(1:3:nil)", "range", ""},
+	{"(nil:nil:nil)", "range", "zero"}, {"(1:3:nil)", "range", ""}, {"(3:1)", "range", ""}, {"(1:4:-1)", "range", ""}, {"(-1:-4)", "range", ""}, {"(5:0:2)", "range", ""},
 	// funcs
 	{"{|x| x}", "func", ""}, {"m{|y| y}", "func", ""}, {"{|x| x}", "func", ""}, {"Int['+]", "func", "builtin"}, {"{|x, k: 1| x + k}", "func", ""},
 	// iters
